@@ -10,3 +10,7 @@ def build(run):
     timedate.verify_flag(run)
     timedate.verify_cron_registration(run)
     timedate.verify_reconfig(run)
+    timedate.verify_ts_reconfig(run)
+    timedate.verify_maintask(run)
+    run.replayer('Cron._maintask/call:set.union/pre:at_least_one_set_is_given', lambda run_, ob, model: open('/verif/specs/replay_c07a.py').read())
+    run.replayer('Cron._maintask/trace:sleeps_only_while_the_wakeup_time_is_ahead_and_never_beyond_it', lambda run_, ob, model: open('/verif/specs/replay_c07b.py').read())
